@@ -177,7 +177,11 @@ PROBES = {
 }
 # not options of their own: the style a --map-styles entry maps to (probe: a line git marked as moved), and a colour of
 # --blame-palette (colours only, the background of a blame line)
-PSEUDO = {"map-styles-target": ("map-styles", "bold purple => %s"), "blame-palette-colour": ("blame-palette", "%s")}
+PSEUDO = {"map-styles-target": ("map-styles", "bold purple => %s"), "blame-palette-colour": ("blame-palette", "%s"),
+          # grep-file-style is also the style of the file name above a file's hits in ripgrep-style output when
+          # grep-header-file-style is not given
+          "grep-file-style-in-ripgrep-header": ("grep-file-style", "%s")}
+PROBES["grep-file-style-in-ripgrep-header"] = (b"PROBE.rs:7:code\n", "PROBE.rs", ["git", "grep", "-n", "x"])
 PROBES["map-styles-target"] = (HEAD + b" ctx\n\x1b[1;35m-PROBE\x1b[m\n", "PROBE", None)
 PROBES["blame-palette-colour"] = (b"01234567 (A U Thor 2020-01-01 00:00:00 +0000 1) PROBE\n", "PROBE", ["git", "blame", "f"])
 # the wrap symbol of a wrapped side-by-side row (on an unchanged and on an added line)
@@ -188,16 +192,24 @@ EXTRA_OPTS = {"inline-hint-style": {"side-by-side": True, "width": "60"},
               "line-numbers-minus-style": {"line-numbers": True, "hunk-header-style": "omit"},
               "grep-file-style": {"grep-output-type": "classic"},
               "grep-header-file-style": {"grep-output-type": "ripgrep"},
+              "grep-file-style-in-ripgrep-header": {"grep-output-type": "ripgrep"},
               "grep-line-number-style": {"grep-output-type": "classic"}}
 
 
+# options whose value may also hold decoration words: there `underline` (spelled out) asks for a line under the whole
+# element, not for underlined text - only `ul` is the text attribute
+DECO_AWARE = ("commit-style", "file-style", "hunk-header-style", "hunk-header-line-number-style", "hunk-header-file-style",
+              "grep-header-file-style")
+
+
 def base(option, value, true_color):
+    probe_name = option
     if option in PSEUDO:
         option, value = PSEUDO[option][0], PSEUDO[option][1] % value
     o = {"no-gitconfig": True, "paging": "never", "detect-dark-light": "never", "dark": True,
          "syntax-theme": "none", "width": "60", "true-color": "always" if true_color else "never",
          option: value}
-    o.update(EXTRA_OPTS.get(option, {}))
+    o.update(EXTRA_OPTS.get(probe_name, EXTRA_OPTS.get(option, {})))
     return o
 
 
@@ -375,8 +387,12 @@ def main(tier):
     core40 = items[:: max(1, len(items) // 40)][:40]
     # `omit` / `raw` together with other words (elements that do not honour them paint with the other words)
     specials = [x for x in items if any(k == "special" for k, _ in x[1])] + \
-        [(t, [(("special" if w in ("raw", "omit") else "attr" if w in ATTRS else "colour"), w) for w in t.split()])
-         for t in ("raw red", "bold raw yellow 57", "raw reverse red", "omit blue", "raw omit")]
+        [(t, [(("special" if w in ("raw", "omit") else "attr" if w.lower() in ATTRS else "colour"), w) for w in t.split()])
+         for t in ("raw red", "bold raw yellow 57", "raw reverse red", "omit blue", "raw omit",
+                   # a background alone next to raw / omit (the `normal` that holds the first slot must survive the round trip)
+                   "raw normal red", "raw normal 200", "normal #5f87af raw", "omit normal red", "raw normal normal",
+                   # the long spelling of ul, alone and with colours
+                   "underline", "blue underline", "bold underline 101 102", "UNDERLINE red")]
     sweeps = []
     nums = range(256)
     for n in nums:
@@ -395,6 +411,7 @@ def main(tier):
             its = items if (opt == "plus-style" or tier == "thorough") else items[::4]
             for i in range(0, len(its), 600):
                 tasks.append((opt, tc, its[i:i + 600], deadline))
+            tasks.append((opt, tc, [x for x in specials if opt not in DECO_AWARE or "underline" not in x[0].lower()], deadline))
         for i in range(0, len(sweeps), 500):
             tasks.append(("plus-style", tc, sweeps[i:i + 500], deadline))
         for opt in PROBES:
@@ -405,7 +422,8 @@ def main(tier):
                 tasks.append((opt, tc, [x for x in core40 if not any(k == "special" for k, _ in x[1])]
                               + [x for x in sweeps if x[0].startswith(("normal #", "#"))][::3], deadline))
             elif opt not in ("plus-style", "zero-style", "file-style"):
-                tasks.append((opt, tc, core40 + specials, deadline))
+                tasks.append((opt, tc, core40 + [x for x in specials if opt not in DECO_AWARE
+                                                 or "underline" not in x[0].lower()], deadline))
     res = explore.pmap(run_task, tasks)
     res_case = explore.pmap(run_case, [([o], deadline) for o in CASE_OPTS])
     n = sum(r["n"] for r in res)
